@@ -17,6 +17,7 @@
      finish id                        the body is about to return its value
      panic  id                        the body is about to panic
      recv   id r                      the caller's receiver resolved: r = "ok" | "canceled"
+     rdrop  id                        the caller dropped the receiver unresolved (fire and forget)
      jcall / jret r                   join called / returned "ok" or resumed a "panic"
      wpanic w                         panic hook: worker thread w starts to unwind (not a body panic)
      wexit  w                         a thread-local destructor of worker w ran (thread is ending)
@@ -42,7 +43,7 @@ Max2(a, b) == IF a > b THEN a ELSE b
 
 SetAll(z) ==
   /\ cfg' = z.cfg /\ q' = z.q /\ txAlive' = z.txAlive /\ rx' = z.rx /\ st' = z.st /\ kind' = z.kind
-  /\ owner' = z.owner /\ res' = z.res /\ bop' = z.bop /\ nstart' = z.nstart
+  /\ owner' = z.owner /\ res' = z.res /\ bop' = z.bop /\ nstart' = z.nstart /\ rdrop' = z.rdrop
   /\ wpc' = z.wpc /\ cur' = z.cur /\ wpanic' = z.wpanic /\ spc' = z.spc /\ scur' = z.scur
   /\ sres' = z.sres /\ jpc' = z.jpc /\ jidx' = z.jidx /\ jvia' = z.jvia /\ jres' = z.jres
   /\ poolBusy' = z.poolBusy
@@ -52,7 +53,7 @@ TraceInit ==
   /\ TLCSet(1, 1)
   /\ LET z == Init0([nw |-> 1, concurrent |-> TRUE, fault |-> "none", pool |-> 99]) IN
      /\ cfg = z.cfg /\ q = z.q /\ txAlive = z.txAlive /\ rx = z.rx /\ st = z.st /\ kind = z.kind
-     /\ owner = z.owner /\ res = z.res /\ bop = z.bop /\ nstart = z.nstart
+     /\ owner = z.owner /\ res = z.res /\ bop = z.bop /\ nstart = z.nstart /\ rdrop = z.rdrop
      /\ wpc = z.wpc /\ cur = z.cur /\ wpanic = z.wpanic /\ spc = z.spc /\ scur = z.scur
      /\ sres = z.sres /\ jpc = z.jpc /\ jidx = z.jidx /\ jvia = z.jvia /\ jres = z.jres
      /\ poolBusy = z.poolBusy
@@ -83,6 +84,10 @@ Event(ev) ==
   \/ /\ ev.e = "recv"
      /\ Accepted(ev.id) /\ RecvOutcome(ev.id) = ev.r
      /\ UNCHANGED vars
+  \/ /\ ev.e = "rdrop"        \* the caller dropped its receiver (fire and forget)
+     /\ Accepted(ev.id) /\ \A s \in Senders : scur[s] # ev.id
+     /\ \/ DropReceiver(ev.id)
+        \/ Final(st[ev.id]) /\ UNCHANGED vars
   \/ /\ ev.e = "jcall"
      /\ JoinCall
   \/ /\ ev.e = "jret"
